@@ -3,6 +3,7 @@
 package props
 
 import (
+	"encoding/json"
 	"fmt"
 	"io"
 	"os"
@@ -142,7 +143,7 @@ func SelfcheckMain(args []string) int {
 	}
 	if len(bad) == 0 {
 		fmt.Printf("selfcheck: concrete translator validation ok (%d SSA instructions of the real code, %d assertions)\n", res.Steps, len(res.Obls))
-		return 0
+		return selfcheckRace(l)
 	}
 	// the executor disagrees with the recorded expectations: does the native build disagree too
 	// (the library changed) or only the executor (a translator bug)?
@@ -170,4 +171,31 @@ func SelfcheckMain(args []string) int {
 		return 2
 	}
 	return 0
+}
+
+// selfcheckRace: the race-mode replay (C18) must be silent on the unchanged tree, otherwise a
+// race caused by the harness itself could "confirm" a confinement counterexample.
+func selfcheckRace(l *sym.Loaded) int {
+	work := filepath.Join(VerifDir(), ".work", "selfcheck")
+	os.MkdirAll(work, 0o755)
+	defer os.RemoveAll(work)
+	rc := 0
+	for i, rf := range []replayFile{
+		{Property: "C18", Harness: "H_C18_op", Pkg: "decimal", Cfg: map[string]int64{"op": 4, "wx": 2, "bst": 2}, Values: map[string]string{"x.m0": "5", "x.m1": "1000000000000000000"}},
+		{Property: "C18", Harness: "H_C18_op", Pkg: "decimal", Cfg: map[string]int64{"op": 3}, Values: map[string]string{"x.m0": "1000000000000000007", "y.m0": "3000000000000000000"}},
+		{Property: "C18", Harness: "H_C18_sqrtreal", Pkg: "decimal", Cfg: map[string]int64{"p": 40, "v": 2}, Values: map[string]string{}},
+	} {
+		b, _ := json.MarshalIndent(rf, "", " ")
+		f := filepath.Join(work, fmt.Sprintf("race%d.json", i))
+		os.WriteFile(f, b, 0o644)
+		r := raceReplay(l, f, work)
+		if r != "PASS" {
+			fmt.Printf("selfcheck: race-mode replay of %s %v is not silent on this tree: %s\n", rf.Harness, rf.Cfg, r)
+			rc = 2
+		}
+	}
+	if rc == 0 {
+		fmt.Println("selfcheck: race-mode replay silent on 3 sample operations (harness and library race-free when operands are shared)")
+	}
+	return rc
 }
